@@ -72,7 +72,7 @@ func (s *sim) scanIsolation(ctx string) {
 					}
 				}
 				if err != "" || !sameStrs(g2, want) {
-					key := known13(sp, "", pages)
+					key := known13(sp, "", pages, "", false)
 					if key == "" && s.cfg.engine == "mem" && pages >= 2 && (strings.Contains(strings.Join(want, ""), "\x00") || strings.Contains(tb, "\x00")) {
 						// mem (radix) engine: seeking to a cursor next to keys that
 						// extend another key by 0x00 lands at the wrong place
